@@ -157,13 +157,15 @@ def specGraph (d : List Entry) : TaskGraph Key String where
   deps k := match Entry.find d k with | some e => e.preds | none => []
   fn k vals := match Entry.find d k with | some e => e.applySpec vals | none => ""
 
-/-- Model of `dask.get(dsk, 'results')`: fire along a topological order; a
-    graph in which `'results'` never becomes available has a cycle
-    (`RuntimeError: Cycle detected`). Also returns the firing order used. -/
+/-- Model of `dask.get(dsk, 'results')`: fire along a topological order.  dask
+    orders the WHOLE dict first (`dask.order.order`), so a cycle anywhere in it —
+    some key cannot be placed — is refused (`RuntimeError: Cycle detected`),
+    also when `'results'` does not depend on it.  Also returns the firing order used. -/
 def daskGet (d : List Entry) : Except Err String × List Key :=
   let tg := daskGraph d
   let keys := d.map (·.key)
   let order := topoOrder tg.deps keys keys.length []
+  if order.length != keys.length then (.error .cycle, order) else
   match runSeq tg Env.empty order with
   | some env => match env .results with
     | some v => (.ok v, order)
